@@ -1000,6 +1000,7 @@ func (ex *Explorer) runPath(it *workItem) (forks [][]decision) {
 		fn = pkg.Func(j.Harness)
 	}
 	outcome, msg := "ok", ""
+	panicWhere := ""
 	if fn == nil {
 		outcome, msg = "unsupported", "harness function not found: "+j.Pkg+"."+j.Harness
 	} else {
@@ -1011,6 +1012,9 @@ func (ex *Explorer) runPath(it *workItem) (forks [][]decision) {
 						outcome, msg = p.kind, p.msg
 					case targetPanic:
 						outcome, msg = "panic", toString(p.v)
+						if i.lastFrame != nil {
+							panicWhere = i.where(i.lastFrame) + " in " + i.lastFrame.fn.String()
+						}
 						if e, ok := p.v.(iface); ok && e.t != nil {
 							msg = ex.panicText(e)
 						}
@@ -1077,12 +1081,12 @@ func (ex *Explorer) runPath(it *workItem) (forks [][]decision) {
 			kind, label = "hang", "terminates"
 		}
 		if j.Concrete != nil {
-			ex.run.addViolation(&Violation{Job: j, Label: label, Kind: kind, Msg: msg, Inputs: j.Concrete})
+			ex.run.addViolation(&Violation{Job: j, Label: label, Kind: kind, Msg: msg, Inputs: j.Concrete, Where: panicWhere})
 		} else {
 			s := ex.solverFor(i.pc, nil)
 			res, m := s.Check(i.pc, nil, ex.run.Cfg.ProveTimeoutMs, ex.inputVars())
 			if res == Sat {
-				ex.run.addViolation(&Violation{Job: j, Label: label, Kind: kind, Msg: msg, Inputs: ex.inputsFromModel(m)})
+				ex.run.addViolation(&Violation{Job: j, Label: label, Kind: kind, Msg: msg, Inputs: ex.inputsFromModel(m), Where: panicWhere})
 			} else if res == Unknown {
 				j.mu.Lock()
 				j.Inconcl++
